@@ -317,8 +317,10 @@ def gen_scenario(rng, name, nact):
                 acts.append(["viewopen", v])
             else:
                 q = rng.random()
-                if q < 0.4:
+                if q < 0.15:
                     acts.append(["viewread", v])
+                elif q < 0.4:
+                    acts.append(["viewsearch", v, add_def(_search_query(rng, scn, sorted(existing))), rng.choice([0, 1, 1])])
                 elif q < 0.7 and scn.get("viewdata", True):
                     acts.append(["viewdata", v, rng.randrange(nfl), rng.choice(scn["converters"])])
                 else:
@@ -352,6 +354,19 @@ def _plain_def(rng, scn, classes=("port", "host", "data", "time", "id")):
     return ("id", sorted(rng.sample(range(len(scn["flows"])), 2)))
 
 
+def _search_query(rng, scn, tags, classes=("port", "host", "data", "id")):
+    """a search (not a tag definition): may use any existing tag"""
+    def atom():
+        if tags and rng.random() < 0.6:
+            r = ("ref", rng.choice(tags))
+            return r if rng.random() < 0.7 else ("not", r)
+        return _plain_def(rng, scn, classes)
+    r = rng.random()
+    if r < 0.6:
+        return atom()
+    return (rng.choice(["and", "or"]), atom(), atom())
+
+
 def _file_kinds(rng, scn, base_t=20000):
     """file 0: every flow once; then one file of each kind for flow 0: extend, reset, add-only (new flow)"""
     n = len(scn["flows"])
@@ -370,7 +385,7 @@ def gen_template(rng, name, family=None):
        tagjob-refchg : a referenced tag changes (query edit, mark add/del) while the referrer's job is parked
        convjob-2imp  : two imports complete while a converter job is parked at its start
        view-import   : on-demand conversion through a view opened before / during an import"""
-    family = family or rng.choice(["tagjob-import", "tagjob-refchg", "convjob-2imp", "view-import"])
+    family = family or rng.choice(["tagjob-import", "tagjob-refchg", "convjob-2imp", "view-import", "convjob-detach", "view-multi", "view-multi"])
     scn = _tmpl_base(rng, name, rng.choice([3, 4]))
     kinds, x = _file_kinds(rng, scn)
     acts = scn["actions"]
@@ -423,6 +438,58 @@ def gen_template(rng, name, family=None):
             acts.append(["import", [kinds[kd]]])
             acts += [["stepkind", "import"], ["stepkind", "import"]]
         acts += [["stepkind", "convert"], ["stepkind", "convert"]]
+    elif family == "convjob-detach":
+        # a converter is taken from its tag (set-converter / delete) while a converter job is parked and more of the
+        # tag's streams were queued behind it
+        n = len(scn["flows"]) - 1
+        mark = rng.random() < 0.6
+        if mark:
+            first = sorted(rng.sample(range(n), 1))
+            acts.append(["addmark", "mark/m", first])
+            T = "mark/m"
+        else:
+            acts.append(["addtag", "tag/a", add_def(_plain_def(rng, scn, ("port", "host", "id")))])
+            acts.append(["settle", rng.randrange(1 << 20)])
+            T = "tag/a"
+        if rng.random() < 0.3:      # another tag keeps the converter
+            acts.append(["addmark", "generated/g", sorted(rng.sample(range(n), 1))])
+            acts.append(["setconv", "generated/g", ["cva"]])
+        acts.append(["setconv", T, ["cva"]])
+        for _ in range(rng.choice([0, 0, 1])):
+            acts.append(["stepkind", "convert"])
+        if mark:
+            acts.append(["markadd", "mark/m", [x for x in range(n) if x not in first]])
+        else:
+            kd = rng.choice(["extend", "add"])
+            acts.append(["import", [kinds[kd]]])
+            acts += [["stepkind", "import"], ["stepkind", "import"], ["stepkind", "tag"], ["stepkind", "tag"]]
+        acts.append(rng.choice([["setconv", T, []], ["deltag", T]]))
+        acts += [["stepkind", "convert"], ["stepkind", "convert"], ["stepkind", "convert"]]
+    elif family == "view-multi":
+        # one view kept open over several searches while tags are undecided: a narrow result with all tags prefetched,
+        # then wider searches (with and without prefetch) that use the tags as filters / report HasTag outside the first result
+        cports = [int(f["a"].rsplit(":", 1)[1]) for f in scn["flows"]]
+        n = len(scn["flows"]) - 1
+        if rng.random() < 0.4:
+            acts.append(["addmark", "mark/m", sorted(rng.sample(range(n), rng.choice([1, 2])))])
+        acts.append(["addtag", "tag/a", add_def(_plain_def(rng, scn, ("port", "host", "data", "id")))])
+        tags = ["tag/a"]
+        if rng.random() < 0.5:
+            r = ("ref", "tag/a")
+            acts.append(["addtag", "tag/c", add_def(rng.choice([r, ("not", r), ("and", r, _plain_def(rng, scn, ("port", "host"))), ("sub", "tag/a", "sport")]))])
+            tags.append("tag/c")
+        for _ in range(rng.choice([0, 0, 1, 2])):
+            acts.append(["stepkind", "tag"])
+        acts.append(["viewopen", 0])
+        narrow = rng.choice([("cport", [rng.choice(cports[:n])]), ("id", [rng.randrange(n)])])
+        acts.append(["viewsearch", 0, add_def(narrow), 1])
+        for _ in range(rng.choice([2, 3, 4])):
+            T = rng.choice(tags)
+            q = rng.choice([("ref", T), ("not", ("ref", T)), ("not", ("cport", [9])), _search_query(rng, scn, tags)])
+            acts.append(["viewsearch", 0, add_def(q), rng.choice([0, 1])])
+        if rng.random() < 0.5:
+            acts += [["stepkind", "tag"], ["stepkind", "tag"]]
+            acts.append(["viewsearch", 0, add_def(("ref", rng.choice(tags))), 1])
     else:
         if rng.random() < 0.5:
             acts.append(["viewopen", 0])
@@ -440,7 +507,7 @@ def gen_template(rng, name, family=None):
     return scn
 
 
-FAMILY_OF_FIELD = {"tags": ["tagjob-import", "tagjob-refchg"], "next": ["tagjob-import"], "tc": ["convjob-2imp", "view-import"],
+FAMILY_OF_FIELD = {"tags": ["tagjob-import", "tagjob-refchg"], "next": ["tagjob-import"], "tc": ["convjob-2imp", "view-import", "convjob-detach"],
                    "ca": ["convjob-2imp", "view-import"], "j": ["tagjob-import", "convjob-2imp"], "q": ["tagjob-import"],
                    "ix": ["convjob-2imp"], "me": ["convjob-2imp", "tagjob-import"]}
 
@@ -542,6 +609,61 @@ def tag_truth_sets(state, defs, streams):
     return {tn: (tt(tn) if asts[tn] is not None else None) for tn in asts}, asts
 
 
+def inline_shapes(q, vst, asts):
+    """known defects of inlining undecided tags into a search: shape of the query + the tag state the view was opened with.
+    neg-unsat-tag-inline    : a negated reference reaches an undecided tag whose definition can never match (empty mark, `id:-1`)
+    neg-subquery-tag-inline : a negated reference reaches an undecided tag whose definition uses a sub-query
+    subquery-tag-inline     : (C02's known finding, reached through a tag) an inlined definition runs a sub-query on an undecided tag"""
+    out = set()
+
+    def has_sub(T, seen=()):
+        d = asts.get(T)
+        if d is None or T in seen:
+            return False
+        return "sub" in klass(d) or any(has_sub(r, seen + (T,)) for r in refs(d))
+
+    def subs(d):
+        if d[0] == "sub":
+            return {d[1]}
+        if d[0] == "not":
+            return subs(d[1])
+        if d[0] in ("and", "or"):
+            return subs(d[1]) | subs(d[2])
+        return set()
+
+    def sub_undecided(T, seen=()):
+        # the definition (or one inlined into it) runs a sub-query on a tag that is itself undecided
+        d = asts.get(T)
+        if d is None or T in seen:
+            return False
+        if any(vst["tags"].get(a, {}).get("u") for a in subs(d)):
+            return True
+        return any(vst["tags"].get(r, {}).get("u") and sub_undecided(r, seen + (T,)) for r in refs(d) - subs(d))
+
+    def walk(d, neg, seen):
+        k = d[0]
+        if k == "not":
+            walk(d[1], not neg, seen)
+        elif k in ("and", "or"):
+            walk(d[1], neg, seen)
+            walk(d[2], neg, seen)
+        elif k == "ref":
+            T = d[1]
+            t = vst["tags"].get(T)
+            if t is None or not t["u"] or T in seen:
+                return
+            if neg and t["def"] == "id:-1":
+                out.add("neg-unsat-tag-inline")
+            if neg and has_sub(T):
+                out.add("neg-subquery-tag-inline")
+            if sub_undecided(T):
+                out.add("subquery-tag-inline")
+            if asts.get(T) is not None:
+                walk(asts[T], neg, seen + (T,))
+    walk(q, False, ())
+    return sorted(out)
+
+
 def conv_expected(cname, s):
     # hex: a data filter without converter selector also searches converter output; hex never matches the data words
     return "%s#%s#%s\x00" % (cname, s["c"].encode().hex(), s["s"].encode().hex())
@@ -557,6 +679,7 @@ def check_scenario(scn, lines):
     prev_queue = []
     name = scn["name"]
     per_line = {}
+    epoch, view_epoch, view_state, prev_st = 0, {}, {}, None
     for li, ln in enumerate(lines):
         for f in F:
             if f.li < 0:
@@ -574,6 +697,15 @@ def check_scenario(scn, lines):
             break
         stats["steps"] += 1
         act = ln["act"]
+        # views kept open: what a view shows is ground truth of its opening as long as neither the streams nor a tag
+        # definition / mark changed since (tagging job completions do not change the truth)
+        if res == "import.done" or (act[0] in ("addtag", "addmark", "deltag", "query", "markadd", "markdel") and res == "ok"):
+            epoch += 1
+        if act[0] == "viewopen" and res == "ok":
+            view_epoch[act[1]] = epoch
+            view_state[act[1]] = st
+        elif act[0] == "viewclose":
+            view_epoch.pop(act[1], None)
         done_before = list(truth.done)
         # completed imports: the queue lost a prefix
         if len(st["queue"]) < len(prev_queue) or (act[0] in ("step", "stepkind", "settle", "substep")):
@@ -648,6 +780,30 @@ def check_scenario(scn, lines):
             stats["view_checks"] += 1
             if known != want or sorted(t for t in s["tags"] if tsets.get(t) is not None) != want:
                 F.append(Finding("C06", "view-hastag", name, i, {"stream": s["id"], "has": s["has"], "alltags": s["tags"], "truth": want}))
+        # ---- C06 (view kept open): every search through the same view = ground truth, whatever was prefetched before
+        if act[0] == "viewsearch" and res == "ok" and view_epoch.get(act[1]) == epoch:
+            q = defs.get(act[2])
+
+            def uses_time(d, seen=()):
+                if d is None:
+                    return True
+                if "time" in klass(d):
+                    return True
+                return any(r in seen or uses_time(asts.get(r), seen + (r,)) for r in refs(d))
+            if q is not None and not uses_time(q) and all(tsets.get(r) is not None for r in refs(q)):
+                stats["view_checks"] += 1
+                want = sorted(sid for sid in streams if eval_def(q, sid, streams, lambda tn: tsets.get(tn) or set()))
+                got = [o["id"] for o in ln["info"]["streams"]]
+                if got != want:
+                    F.append(Finding("C06", "view-search", name, i, {"view": act[1], "query": act[2], "prefetch": act[3], "got": got, "truth": want,
+                                                                     "shape": inline_shapes(q, view_state[act[1]], asts)}))
+                if act[3]:
+                    clean = sorted(tn for tn in tsets if tsets[tn] is not None and not uses_time(asts[tn]))
+                    for o in ln["info"]["streams"]:
+                        wt = [tn for tn in clean if o["id"] in tsets[tn]]
+                        if [tn for tn in o["has"] if tn in clean] != wt or sorted(tn for tn in o["tags"] if tn in clean) != wt:
+                            F.append(Finding("C06", "view-search-hastag", name, i,
+                                             {"view": act[1], "query": act[2], "stream": o["id"], "has": o["has"], "alltags": o["tags"], "truth": wt}))
         # ---- C16: cache version
         inflight = st["fconv"]
         if inflight:
@@ -677,6 +833,22 @@ def check_scenario(scn, lines):
         for c in st["toconv"]:
             if c not in attached and not inflight and st["toconv"][c]:
                 F.append(Finding("C16", "queued-after-detach", name, i, {"conv": c, "queued": st["toconv"][c]}))
+        # detach (C16_detach_dequeues_partial): right after a converter was taken from a tag (set-converter / delete), none of
+        # the tag's streams is queued for it any more unless another tag with the converter matches the stream -- also
+        # while a converter job is in flight
+        if prev_st is not None:
+            for tn, pt in prev_st["tags"].items():
+                for c in pt["conv"]:
+                    if tn in st["tags"] and c in st["tags"][tn]["conv"]:
+                        continue
+                    others = set()
+                    for xn, xt in st["tags"].items():
+                        if xn != tn and c in xt["conv"]:
+                            others |= set(xt["m"])
+                    bad = sorted((set(st["toconv"].get(c, [])) & set(pt["m"])) - others)
+                    if bad:
+                        F.append(Finding("C16", "queued-after-detach", name, i, {"conv": c, "tag": tn, "queued": bad, "at": "detach"}))
+        prev_st = st
         # ---- quiescence (C09) + C16 completeness
         if act[0] == "settle":
             info = ln["info"]
@@ -959,7 +1131,7 @@ def run_model(exe, text, tag):
 # ---------------------------------------------------------------------------- known findings
 KF_PROP = {"lost-inherited-invalidation": "C06", "idonly-added-streams": "C06", "reset-not-invalidated": "C16",
            "inflight-update": "C16", "stale-view-store": "C16", "merge-not-restarted-after-convert": "C09"}
-OTHER_KNOWN = {"view-time-reftime": "C06", "convert-missing-stream-hang": "C09"}
+OTHER_KNOWN = {"view-time-reftime": "C06", "convert-missing-stream-hang": "C09", "neg-unsat-tag-inline": "C06", "neg-subquery-tag-inline": "C06", "subquery-tag-inline": "C06"}
 
 
 def load_known(prop=None):
@@ -1133,6 +1305,9 @@ def analyse(shared, exe):
                 return None         # the model does not explain this state
             resp = [kid for kid in sorted(K) if KF_PROP[kid] == f.prop and without[kid].get(f.scn) is not None and without[kid][f.scn] <= f.li]
             return resp[0] if resp else None
+        if f.kind == "view-search":
+            sh = f.detail.get("shape") or []
+            return sh[0] if sh and all(x in known for x in sh) else None
         if f.kind == "view-hastag":
             lines = shared["results"][f.scn]
             st = lines[f.li]["state"]
